@@ -1,6 +1,7 @@
 (* C17 - what must hold of the tables regenerated from the source into Gen/G_states.v.
-   The two exception lists name the entries that are KNOWN defects of the unchanged tree (KNOWN_FINDINGS.json F1 and
-   F17.1); an entry in an exception list is allowed to fail, every other entry must pass.  After the defect is
+   The exception lists name the entries that are KNOWN, recorded defects of the tree (KNOWN_FINDINGS.json F17.1; F1 was
+   excepted here until it was repaired in /repo, commit 2782092, and is now checked like every other entry);
+   an entry in an exception list is allowed to fail, every other entry must pass.  After the defect is
    repaired in the source the regenerated entry passes and the theorem holds unchanged, so this file never needs an
    edit for a repair; harness/c17.py reports an excepted entry that still fails as the known finding. *)
 From TenpyV Require Import Base.Prelude.
@@ -31,8 +32,8 @@ Definition call_ok (e : string * string * nat * nat) : bool :=
 Definition pair_mem (c f : string) (l : list (string * string)) : bool :=
   existsb (fun p => String.eqb (fst p) c && String.eqb (snd p) f) l.
 
-(* (class, method): F1 - DipolarChargeInfo.from_hdf5 passes two state arguments *)
-Definition known_arity_exceptions : list (string * string) := [("DipolarChargeInfo", "from_hdf5")].
+(* (class, method): empty since F1 (DipolarChargeInfo.from_hdf5 passed two state arguments) was repaired *)
+Definition known_arity_exceptions : list (string * string) := [].
 (* (class, format): F17.1 - LegPipe.from_hdf5 reads 'sorted'/'bunched', which format 'flat' does not write *)
 Definition known_subset_exceptions : list (string * string) := [("LegPipe", "flat")].
 
